@@ -43,3 +43,9 @@ func SameAsSnapshot(h int, x any) bool              { panic("symbolic only") }
 func Havoc(x any)                                   { panic("symbolic only") }
 func Par2(label string, f, g func())               { panic("symbolic only") }
 func Call(f func())                                 { panic("symbolic only") }
+func FSDir(exists bool) string                      { panic("symbolic only") }
+func FSFaults(on bool)                              { panic("symbolic only") }
+func FSConfined(dir string) bool                    { panic("symbolic only") }
+func FSEntries(dir string) int                      { panic("symbolic only") }
+func FSCorrupt(dir string, how int)                 { panic("symbolic only") }
+func CrashDuring(f func()) bool                     { panic("symbolic only") }
